@@ -189,6 +189,7 @@ func (wf *Workflow) IncConcurrentTasks(slots int) {
 // DecConcurrentTasks decreases the conter for how many concurrent tasks are
 // currently running in the workflow
 func (wf *Workflow) DecConcurrentTasks(slots int) {
+	vhook("dec.enter")
 	for i := 0; i < slots; i++ {
 		<-wf.concurrentTasks
 		Debug.Println("Decreased concurrent tasks")
